@@ -2,9 +2,9 @@
 # ConnSkeleton — the call structure of the connection code (root package) the blocking-structure
 model (`ConnSys`), the pipeline model (`Framing`) and the pool model were written against
 
-For every function, method and closure of the root package: calls into the library, deferred
-calls, channel sends, channel closes, mutex operations, error-group and once operations, in source
-order. `Props/ConnSkeleton.lean` checks on every run that the skeleton regenerated from /repo is
+For every exported function and method of the root package: calls into the library, deferred calls, channel sends,
+channel closes, mutex operations, error-group and once operations, in evaluation order; unexported helpers, closures
+and method values expanded in place (see `Skeleton.lean` for the notation). `Props/ConnSkeleton.lean` checks on every run that the skeleton regenerated from /repo is
 this one. Dropping `defer processRemainingErrors` from `Run`, closing a channel somewhere else,
 not stopping the handler after `Conn.serve` returns, sending without the handler mutex, … all
 change it, and the goroutine structure proved escape-complete in `Props/C13Sys.lean` is then no
@@ -19,18 +19,9 @@ def expected : List (String × List String) := [
   (".NewInitiatorHandler", ["root.NewIncomingHandlerPool", "root.NewOutgoingHandlerPool"]),
   (".NewOutgoingHandlerPool", ["root.NewHandlerPool"]),
   ("Acceptor.Close", ["field:root.Acceptor.cancel"]),
-  ("Acceptor.ListenAndServe", ["defer root.Acceptor.Close", "defer net.Listener.Close"]),
-  ("Acceptor.ListenAndServe$1", ["net.Listener.Accept", "chan-send listenErr", "root.Acceptor.serve"]),
-  ("Acceptor.serve", ["root.NewConn", "defer root.Conn.Close", "root.HandlerFactory.MakeHandler", "defer root.AcceptorHandler.CloseErrorChan", "golang.org/x/sync/errgroup.Group.Go", "field:root.Acceptor.handleNewClient", "golang.org/x/sync/errgroup.Group.Go", "golang.org/x/sync/errgroup.Group.Go", "golang.org/x/sync/errgroup.Group.Go", "golang.org/x/sync/errgroup.Group.Wait"]),
-  ("Acceptor.serve$1", ["root.Conn.Close"]),
-  ("Acceptor.serve$2", ["root.Conn.serve", "root.AcceptorHandler.StopWithError"]),
-  ("Acceptor.serve$3", ["root.AcceptorHandler.Run"]),
-  ("Acceptor.serve$4", ["root.Conn.Write"]),
-  ("Acceptor.serve$5", ["root.AcceptorHandler.ServeIncoming"]),
+  ("Acceptor.ListenAndServe", ["defer root.Acceptor.Close", "defer net.Listener.Close", "go", "fn{", "net.Listener.Accept", "chan-send <local>", "go", "fn{", "root.NewConn", "defer root.Conn.Close", "fn{", "root.Conn.Close", "}", "root.HandlerFactory.MakeHandler", "defer root.AcceptorHandler.CloseErrorChan", "fn{", "{", "defer close root.Conn.writer", "defer close root.Conn.reader", "fn{", "defer field:root.Conn.cancel", "bufio.Reader.ReadBytes", "chan-send root.Conn.reader", "}", "golang.org/x/sync/errgroup.Group.Go", "golang.org/x/sync/errgroup.Group.Wait", "}", "root.AcceptorHandler.StopWithError", "}", "golang.org/x/sync/errgroup.Group.Go", "field:root.Acceptor.handleNewClient", "fn{", "root.AcceptorHandler.Run", "}", "golang.org/x/sync/errgroup.Group.Go", "fn{", "root.Conn.Write", "}", "golang.org/x/sync/errgroup.Group.Go", "fn{", "root.AcceptorHandler.ServeIncoming", "}", "golang.org/x/sync/errgroup.Group.Go", "golang.org/x/sync/errgroup.Group.Wait", "}", "}"]),
   ("AcceptorHandlerFactory.MakeHandler", ["root.NewAcceptorHandler"]),
   ("Conn.Write", ["net.Conn.SetWriteDeadline", "field:root.Conn.cancel", "net.Conn.Write", "field:root.Conn.cancel"]),
-  ("Conn.runReader", ["defer field:root.Conn.cancel", "bufio.Reader.ReadBytes", "chan-send root.Conn.reader"]),
-  ("Conn.serve", ["defer close root.Conn.writer", "defer close root.Conn.reader", "golang.org/x/sync/errgroup.Group.Go", "golang.org/x/sync/errgroup.Group.Wait"]),
   ("DefaultHandler.CloseErrorChan", ["close root.DefaultHandler.errors"]),
   ("DefaultHandler.HandleIncoming", ["root.IncomingHandlerPool.Add"]),
   ("DefaultHandler.HandleOutgoing", ["root.OutgoingHandlerPool.Add"]),
@@ -39,32 +30,20 @@ def expected : List (String × List String) := [
   ("DefaultHandler.OnStopped", ["utils.EventHandlerPool.Handle"]),
   ("DefaultHandler.RemoveIncomingHandler", ["root.IncomingHandlerPool.Remove"]),
   ("DefaultHandler.RemoveOutgoingHandler", ["root.OutgoingHandlerPool.Remove"]),
-  ("DefaultHandler.Run", ["utils.EventHandlerPool.Trigger", "defer root.DefaultHandler.processRemainingErrors", "root.DefaultHandler.serve", "root.DefaultHandler.processRemainingIncoming", "utils.EventHandlerPool.Trigger", "root.DefaultHandler.processRemainingIncoming", "utils.EventHandlerPool.Trigger"]),
-  ("DefaultHandler.Send", ["lock root.DefaultHandler.mu", "defer-unlock root.DefaultHandler.mu", "root.DefaultHandler.send"]),
-  ("DefaultHandler.SendBatch", ["lock root.DefaultHandler.mu", "defer-unlock root.DefaultHandler.mu", "root.DefaultHandler.send"]),
-  ("DefaultHandler.SendRaw", ["root.DefaultHandler.sendRaw"]),
+  ("DefaultHandler.Run", ["utils.EventHandlerPool.Trigger", "defer", "fn{", "go", "}", "fix.ValueByTag", "root.IncomingHandlerPool.Range", "root.IncomingHandlerPool.Range", "fix.ValueByTag", "root.IncomingHandlerPool.Range", "root.IncomingHandlerPool.Range", "utils.EventHandlerPool.Trigger", "fix.ValueByTag", "root.IncomingHandlerPool.Range", "root.IncomingHandlerPool.Range", "utils.EventHandlerPool.Trigger"]),
+  ("DefaultHandler.Send", ["lock root.DefaultHandler.<mutex>", "defer-unlock root.DefaultHandler.<mutex>", "root.OutgoingHandlerPool.Range", "root.SendingMessage.MsgType", "root.OutgoingHandlerPool.Range", "root.SendingMessage.ToBytes", "chan-send root.DefaultHandler.out"]),
+  ("DefaultHandler.SendBatch", ["lock root.DefaultHandler.<mutex>", "defer-unlock root.DefaultHandler.<mutex>", "root.OutgoingHandlerPool.Range", "root.SendingMessage.MsgType", "root.OutgoingHandlerPool.Range", "root.SendingMessage.ToBytes", "chan-send root.DefaultHandler.out"]),
+  ("DefaultHandler.SendRaw", ["chan-send root.DefaultHandler.out"]),
   ("DefaultHandler.ServeIncoming", ["chan-send root.DefaultHandler.incoming"]),
   ("DefaultHandler.Stop", ["field:root.DefaultHandler.cancel"]),
   ("DefaultHandler.StopWithError", ["chan-send root.DefaultHandler.errors"]),
-  ("DefaultHandler.processRemainingIncoming", ["root.DefaultHandler.serve"]),
-  ("DefaultHandler.send", ["root.OutgoingHandlerPool.Range", "root.OutgoingHandlerPool.Range", "root.SendingMessage.MsgType", "root.SendingMessage.ToBytes", "root.DefaultHandler.sendRaw"]),
-  ("DefaultHandler.sendRaw", ["chan-send root.DefaultHandler.out"]),
-  ("DefaultHandler.serve", ["fix.ValueByTag", "root.IncomingHandlerPool.Range", "root.IncomingHandlerPool.Range"]),
-  ("HandlerPool.Add", ["root.HandlerPool.add"]),
-  ("HandlerPool.Remove", ["lock root.HandlerPool.mu", "defer-unlock root.HandlerPool.mu", "root.HandlerPool.free"]),
-  ("HandlerPool.add", ["lock root.HandlerPool.mu", "defer-unlock root.HandlerPool.mu"]),
-  ("HandlerPool.handlersByMsgType", ["rlock root.HandlerPool.mu", "defer-unlock root.HandlerPool.mu"]),
+  ("HandlerPool.Add", ["{", "lock root.HandlerPool.<mutex>", "defer-unlock root.HandlerPool.<mutex>", "}"]),
+  ("HandlerPool.Remove", ["lock root.HandlerPool.<mutex>", "defer-unlock root.HandlerPool.<mutex>"]),
   ("IncomingHandlerPool.Add", ["root.IncomingHandlerPool.add"]),
   ("IncomingHandlerPool.Range", ["root.IncomingHandlerPool.handlersByMsgType"]),
   ("Initiator.Close", ["root.Conn.Close", "field:root.Initiator.cancel"]),
   ("Initiator.Send", ["root.InitiatorHandler.Send"]),
-  ("Initiator.Serve", ["defer root.Initiator.Close", "defer root.InitiatorHandler.CloseErrorChan", "golang.org/x/sync/errgroup.Group.Go", "golang.org/x/sync/errgroup.Group.Go", "golang.org/x/sync/errgroup.Group.Go", "golang.org/x/sync/errgroup.Group.Go", "golang.org/x/sync/errgroup.Group.Go", "golang.org/x/sync/errgroup.Group.Wait"]),
-  ("Initiator.Serve$1", ["defer root.Initiator.Close", "root.Conn.serve", "defer sync.Once.Do"]),
-  ("Initiator.Serve$1$1", ["root.InitiatorHandler.StopWithError"]),
-  ("Initiator.Serve$2", ["defer root.Initiator.Close", "root.InitiatorHandler.Run"]),
-  ("Initiator.Serve$3", ["defer root.Initiator.Close", "root.Conn.Write", "root.InitiatorHandler.Stop"]),
-  ("Initiator.Serve$4", ["defer root.Initiator.Close"]),
-  ("Initiator.Serve$5", ["defer root.Initiator.Close", "root.InitiatorHandler.ServeIncoming"]),
+  ("Initiator.Serve", ["defer root.Initiator.Close", "defer root.InitiatorHandler.CloseErrorChan", "fn{", "defer root.Initiator.Close", "{", "defer close root.Conn.writer", "defer close root.Conn.reader", "fn{", "defer field:root.Conn.cancel", "bufio.Reader.ReadBytes", "chan-send root.Conn.reader", "}", "golang.org/x/sync/errgroup.Group.Go", "golang.org/x/sync/errgroup.Group.Wait", "}", "defer sync.Once.Do", "fn{", "root.InitiatorHandler.StopWithError", "}", "}", "golang.org/x/sync/errgroup.Group.Go", "fn{", "defer root.Initiator.Close", "root.InitiatorHandler.Run", "}", "golang.org/x/sync/errgroup.Group.Go", "fn{", "defer root.Initiator.Close", "root.Conn.Write", "root.InitiatorHandler.Stop", "}", "golang.org/x/sync/errgroup.Group.Go", "fn{", "defer root.Initiator.Close", "}", "golang.org/x/sync/errgroup.Group.Go", "fn{", "defer root.Initiator.Close", "root.InitiatorHandler.ServeIncoming", "}", "golang.org/x/sync/errgroup.Group.Go", "golang.org/x/sync/errgroup.Group.Wait"]),
   ("OutgoingHandlerPool.Range", ["root.OutgoingHandlerPool.handlersByMsgType"])
 ]
 
